@@ -27,7 +27,7 @@ from pvc import front_cxx
 from pvc.contract import Call, Contract
 from pvc.interp import Builtin, ModuleV
 from pvc.models import sqrt_f
-from pvc.sym import Mat, PyRaise, SBool, SInt, SMat, SObj, SReal, SV, Unsupported, is_numeric, mat_add, mat_el, mat_inv, mat_mm, mat_sub, mat_T, to_bool, to_int, to_real, wrap
+from pvc.sym import Mat, PyRaise, SBool, SInt, SMat, SObj, SReal, SV, Unsupported, is_numeric, mat_add, mat_el, mat_inv, mat_mm, mat_sub, mm, mat_T, to_bool, to_int, to_real, wrap
 
 TEMPLATES = ("py/formak/templates/process_model.cpp", "py/formak/templates/sensor_model.hpp", "py/formak/templates/innovations.hpp")
 HELPER = "cpp/include/formak/innovation_filtering.h"
@@ -170,7 +170,7 @@ def install(I, low, world):
         x, y = a
         if isinstance(x, SMat) and isinstance(y, SMat):
             need_shapes(I2, "product", to_int(x.cols()) == to_int(y.rows()))
-            return SMat(mat_mm(x.term, y.term), shape=(x.rows(), y.cols()), ident=object())
+            return SMat(mm(x.term, y.term), shape=(x.rows(), y.cols()), ident=object())
         if is_numeric(x) and is_numeric(y):
             return I2.arith(ast.Mult(), x, y)
         raise Unsupported("scalar * matrix in lowered C++")
